@@ -2,7 +2,7 @@
 (* Enumeration for C18: collection type x directory depth x file name x how the audio directory is given   *)
 (* x inside/outside; the path algebra laws are invariants.                                                  *)
 EXTENDS AoefPaths, TLC, Json
-CONSTANTS MaxDepth
+CONSTANTS MaxDepth, Stride      \* Stride: keep every Stride-th combination (1 = all); every value of every dimension still occurs
 VARIABLES ct, depth, name, audio, place, akind, bkind, dots, call, ph
 
 vars == <<ct, depth, name, audio, place, akind, bkind, dots, call, ph>>
@@ -12,18 +12,24 @@ DirParts == <<" 2023-05 ", "sub dir", "üni nfd", "x.y">>
 Names == <<"a.wav", "with space.wav", "üñí ©.wav", "dots.in.name.wav", "..hidden.wav", "日本.WAV", "été nfd.wav", "Ωhm.wav", " lead.wav", "take 7 ">>
 Sw0 == {"two_clips", "se_other_rec", "has_seq", "rec_owner"}
 Init == /\ ct \in Range(CTypes) /\ depth \in 0..MaxDepth /\ name \in DOMAIN Names
-        /\ audio \in {"none", "str", "path"} /\ ph = "in"
+        \* fspath: the directory given as an os.PathLike object that is neither str nor pathlib.Path
+        /\ audio \in {"none", "str", "path", "fspath"} /\ ph = "in"
         \* outside_prefix: a sibling directory whose NAME starts with the audio directory's name (string prefix, not path prefix)
         /\ place \in {"inside", "outside", "outside_prefix"}
         \* the directories given as absolute or relative paths; rel_first: the load directory B is relative and equal to the
         \* first component of the stored relative path (so B.x starts with the same component twice)
         /\ akind \in {"abs", "rel"} /\ bkind \in {"abs", "rel", "rel_first"}
-        /\ (audio = "none" => akind = "abs" /\ bkind = "abs" /\ place = "inside")
+        \* without a directory the recordings may still be given by RELATIVE paths (akind = "rel"): they pass through unchanged
+        /\ (audio = "none" => bkind = "abs" /\ place = "inside")
         /\ (place # "inside" => bkind = "abs")
         \* dots: the directory below the audio directory contains a ".." component (legal; stored and relocated verbatim)
         \* call: how io.save / io.load are invoked: format left at its default, format="aoef", format=None (inferred from
         \* the file), and type=<collection type> passed to load; the directory must be honoured on every path
         /\ call \in {"default", "format_aoef", "format_none", "typed"}
+        /\ LET ix(S, x) == CHOOSE i \in 1..Len(S) : S[i] = x
+               n == name + 3 * depth + 5 * ix(<<"none", "str", "path", "fspath">>, audio) + 7 * ix(<<"default", "format_aoef", "format_none", "typed">>, call)
+                    + 11 * ix(<<"inside", "outside", "outside_prefix">>, place) + 13 * ix(<<"abs", "rel", "rel_first">>, bkind) + ix(CTypes, ct)
+           IN  n % Stride = 0
         /\ dots \in BOOLEAN /\ (dots => depth = 1 /\ place = "inside" /\ akind = "abs" /\ bkind = "abs")
 Go == ph = "in" /\ ph' = "out" /\ UNCHANGED <<ct, depth, name, audio, place, akind, bkind, dots, call>>
 Next == Go
